@@ -20,6 +20,9 @@ Loads == {Z0, Z1, ZN(-1), OneFx, ZNeg(OneFx), ZN(98304), ZN(-32768), ZN(12345678
 Ns == {ZN(k) : k \in {1, 2, 3, 5, 7, 16, 64, 1000, -1, -2, -7, 65536, 2147483647}} \cup {P(33), ZNeg(P(33))}
 SumN == {ZN(k) : k \in 1..9}
 MaxPrefix == 8
+ScalarTags == {"i8", "u8", "i16", "u16", "i32", "u32", "i64", "u64", "ll", "ull"}
+NsAll == Ns \cup {ZN(k) : k \in {100, 127, 128, 200, 255, 256, 32767, 32768, 40000, 65535, -128, -32768}} \cup {P(31), P(31) ++ ZN(5), P(32) -- Z1, P(63) -- Z1, P(63), P(63) ++ ZN(7), P(64) -- Z1, ZNeg(P(31)), ZNeg(P(63))}
+NsOf(tg) == {n \in NsAll : InT(TypeOf(tg), n) /\ n # Z0}
 
 R(S) == RandomElement(S)          \* one random successor per action: the simulator does not enumerate the choices
 Recent == (IF nr > 4 THEN nr - 4 ELSE 1)..nr
@@ -28,22 +31,22 @@ Load == ~done /\ nr < 4 /\ Len(ins) = nr /\ ins' = Append(ins, Ld(nr + 1, R(Load
 Op2 == ~done /\ nr >= 2 /\ Len(ins) < MaxPrefix
        /\ ins' = Append(ins, RR2(R({"add", "sub", "mul", "div"}), nr + 1, R(1..nr), R(1..nr))) /\ nr' = nr + 1 /\ UNCHANGED <<done, law>>
 OpN == ~done /\ nr >= 1 /\ Len(ins) < MaxPrefix
-       /\ ins' = Append(ins, I(R({"mul", "div"}), FI, nr + 1, <<R(1..nr), 0>>, <<Z0, R(Ns)>>)) /\ nr' = nr + 1 /\ UNCHANGED <<done, law>>
+       /\ ins' = Append(ins, I(R({"mul", "div"}), FI("i64"), nr + 1, <<R(1..nr), 0>>, <<Z0, R(Ns)>>)) /\ nr' = nr + 1 /\ UNCHANGED <<done, law>>
 OpNeg == ~done /\ nr >= 1 /\ Len(ins) < MaxPrefix
        /\ ins' = Append(ins, I("neg", <<"fx">>, nr + 1, <<R(1..nr)>>, <<Z0>>)) /\ nr' = nr + 1 /\ UNCHANGED <<done, law>>
 InsJ(i) == [op |-> i.op, t |-> i.t, a |-> [q \in DOMAIN i.s |-> Enc(i.imm[q])], d |-> i.d, s |-> i.s]
 Finish ==
    /\ ~done /\ nr >= 2
    (* RandomSubset(1, S) binds ONE random element for the whole scope (a LET would re-draw it at every use) *)
-   /\ \E nm \in RandomSubset(1, LawNames) :
-      \E n \in RandomSubset(1, IF nm = "mul_n_sum" THEN SumN ELSE IF nm = "mul_div_n" THEN Ns ELSE {Z0}) :
+   /\ \E nm \in RandomSubset(1, LawNames) : \E tg \in RandomSubset(1, IF NeedsN(nm) THEN ScalarTags ELSE {"i64"}) :
+      \E n \in RandomSubset(1, IF nm = "mul_n_sum" THEN SumN ELSE IF nm = "mul_div_n" THEN NsOf(tg) ELSE {Z0}) :
       \E ra \in RandomSubset(1, Recent) : \E rb \in RandomSubset(1, Recent) : \E rc \in RandomSubset(1, Recent) :
-         /\ ins' = ins \o LawTailOf(nm, ra, rb, rc, nr + 1, n)
-         /\ law' = [prog |-> nm, regs |-> <<ra, rb, rc>>, f |-> nr + 1, n |-> Enc(n)]
+         /\ ins' = ins \o LawTailOf(nm, ra, rb, rc, nr + 1, n, tg)
+         /\ law' = [prog |-> nm, regs |-> <<ra, rb, rc>>, f |-> nr + 1, n |-> Enc(n), tag |-> tg]
          /\ done' = TRUE /\ UNCHANGED nr
 Next == Load \/ Op2 \/ OpN \/ OpNeg \/ Finish
 Spec == Init /\ [][Next]_vars
 (* evaluated on the states of the generated behaviour only: writes the finished program *)
-Emit == done => CSVWrite("%1$s", <<ToJson([prog |-> law.prog, regs |-> law.regs, f |-> law.f, n |-> law.n,
+Emit == done => CSVWrite("%1$s", <<ToJson([prog |-> law.prog, regs |-> law.regs, f |-> law.f, n |-> law.n, tag |-> law.tag,
                                           ins |-> [i \in 1..Len(ins) |-> InsJ(ins[i])]])>>, IOEnv.FX_PROGS)
 =============================================================================
